@@ -178,6 +178,10 @@ def run_case(case):
                 # what it raises: an ordinary exception, a time-out of its own, or the
                 # cancellation of something it awaited
                 s.raises = rnd.choice([True, True, "timeout", "cancelled"])
+                if s.raises is True and (case["seed"] + i) % 5 == 0:
+                    s.raises = "badstr"
+                    obs["subscribers_raising_unprintable_exceptions"] = obs.get(
+                        "subscribers_raising_unprintable_exceptions", 0) + 1
                 if s.raises == "cancelled":
                     obs["subscribers_ending_cancelled"] = obs.get(
                         "subscribers_ending_cancelled", 0) + 1
